@@ -603,6 +603,11 @@ def run(tier):
     from . import c12
     sub12 = Check('C12', 'other', tier, [], [])
     chk.guard(c12.rule_r1, sub12, prog)
+    # ... of which only the parts that carry text: tags, the leaf record
+    # and the cursor (not the hash field or the restored id/hash slots)
+    Check.restrict(sub12, lambda wh, what: not any(
+        k in what for k in ('hash width', '(id, hash) restored',
+                            'slots restored', "b'(': fields")))
     chk.adopt('C07.R8', 'leaf texts cross the process boundary verbatim: '
               'the pickle writer and reader agree on tags, lengths (in '
               'bytes), field order and codec (shared with C12.R1)', sub12)
